@@ -178,6 +178,15 @@ class _Setup(object):
         self.stt = float(case.get("r", 0.0)) * self.dt
         self.stt_floor = _floor_cands(self.stt / self.dt)
         self.asig = ctx.lib(eqsig.AccSignal, self.arg, self.dt)
+        # the result depends on the record, not on what was computed on the signal object before: a third of the cases read
+        # the velocity first, another third switch the object's own velocity series to the rectangle rule first
+        pre = (len(self.arg) + int(round(1e6 * self.dt)) + len(self.tts)) % 3
+        if pre == 1:
+            _ = self.asig.velocity
+            ctx.cls("pre=velocity-read")
+        elif pre == 2 and np.asarray(self.asig.values).dtype.kind == "f":
+            self.asig.generate_displacement_and_velocity_series(trap=False)
+            ctx.cls("pre=rectangle-rule-velocity")
         # classification
         ctx.cls("kind=" + spec["k"], gen.size_class(self.n), "red=" + mode, "nodal" if self.nodal else "antinodal",
                 "tt=" + case["tt_as"], "nt=%d" % self.nt if self.nt < 3 else "nt>=3")
